@@ -93,22 +93,46 @@ fn junk_byte(seed: u64, i: usize) -> u8 {
 fn encode_fixed(s: &Schema, cells: &[Cell], junk: u64, heap: &mut Option<&mut Vec<u8>>) -> Vec<u8> {
     let n = s.data_offset as usize;
     let mut region: Vec<u8> = (0..n).map(|i| junk_byte(junk, i)).collect();
+    // string cells first. Where a string lies in the heap is the writer's business: every cell carries its own offset. A
+    // third of the rows store their strings in column order, a third in reverse column order, a third rotated; in half of
+    // the rows equal strings share one heap entry.
+    let mut strs: Vec<(usize, &String)> = s.columns.iter().zip(cells).filter_map(|(c, cell)| if let Cell::Str(st) = cell { Some((c.offset as usize, st)) } else { None }).collect();
+    if !strs.is_empty() {
+        let h = heap.as_mut().expect("string cell in a sheet without a heap");
+        match junk % 3 {
+            1 => strs.reverse(),
+            2 => {
+                let k = (junk / 3) as usize % strs.len();
+                strs.rotate_left(k);
+            }
+            _ => {}
+        }
+        let share = (junk / 7) % 2 == 1;
+        let mut placed: Vec<(&String, u32)> = vec![];
+        for (o, st) in strs {
+            if share {
+                if let Some((_, off)) = placed.iter().find(|(p, _)| *p == st) {
+                    region[o..o + 4].copy_from_slice(&off.to_be_bytes());
+                    continue;
+                }
+            }
+            // junk gap before each string so offsets are not trivially cumulative
+            let gap = (junk_byte(junk, 1000 + o) % 4) as usize;
+            for g in 0..gap {
+                h.push(junk_byte(junk, 2000 + o + g) | 1);
+            }
+            let off = h.len() as u32;
+            h.extend_from_slice(st.as_bytes());
+            h.push(0);
+            region[o..o + 4].copy_from_slice(&off.to_be_bytes());
+            placed.push((st, off));
+        }
+    }
     // packed-bool bytes: start from junk, then set/clear exactly the bit of each column
     for (c, cell) in s.columns.iter().zip(cells) {
         let o = c.offset as usize;
         match cell {
-            Cell::Str(st) => {
-                let h = heap.as_mut().expect("string cell in a sheet without a heap");
-                // junk gap before each string so offsets are not trivially cumulative
-                let gap = (junk_byte(junk, 1000 + o) % 4) as usize;
-                for g in 0..gap {
-                    h.push(junk_byte(junk, 2000 + o + g) | 1);
-                }
-                let off = h.len() as u32;
-                h.extend_from_slice(st.as_bytes());
-                h.push(0);
-                region[o..o + 4].copy_from_slice(&off.to_be_bytes());
-            }
+            Cell::Str(_) => {}
             Cell::Bool(b) => {
                 let t = c.ty as usize;
                 if t == 1 {
